@@ -29,6 +29,7 @@ package main
 //   i I <led op …>          any base op of engine led on instance I (tx, block, submit, detach, notify, …)
 
 import (
+	crand "crypto/rand"
 	"crypto/sha256"
 	"encoding/json"
 	"fmt"
@@ -36,6 +37,7 @@ import (
 	"sort"
 	"strconv"
 	"strings"
+	"time"
 
 	"github.com/massnetorg/mass-core/massutil"
 	"github.com/massnetorg/mass-core/txscript"
@@ -61,6 +63,7 @@ type ksInst struct {
 }
 
 type ksExec struct {
+	nCreate int // number of create ops of this process (zero-led entropies, see create)
 	inst    map[int]*ksInst
 	secrets map[string]*ksSecret
 	idName  map[string]string // wallet id -> W
@@ -260,7 +263,18 @@ func (x *ksExec) Exec(a []string) string {
 		if _, dup := x.secrets[a[2]]; dup {
 			return "bad-op"
 		}
-		id, mn, _, err := e.wm.CreateWallet(privPass(a[2]), "", bits)
+		// every second wallet gets an entropy that STARTS WITH ZERO BYTES (1 or 4 of them; the random source of the
+		// process is replaced for the duration of the call and its first read - the entropy - is zero-led): leading-zero
+		// entropies are where big-integer round trips lose bytes (seed C04-6: a mnemonic restore stored the entropy without
+		// them), and with random entropy they are a 1-in-256 event
+		var id, mn string
+		create := func() { id, mn, _, err = e.wm.CreateWallet(privPass(a[2]), "", bits) }
+		x.nCreate++
+		if x.nCreate%2 == 0 {
+			ksZeroLedCreate(a[2], bits, 1+3*((x.nCreate/2)%2), create)
+		} else {
+			create()
+		}
 		if err != nil {
 			return ksErr(err)
 		}
@@ -564,4 +578,31 @@ func (x *ksExec) Exec(a []string) string {
 		return joinSorted(items)
 	}
 	return "bad-op"
+}
+
+
+// ksZeroLedCreate runs f (a CreateWallet call) with crypto/rand.Reader replaced by a deterministic stream whose FIRST read
+// starts with k zero bytes.
+type zeroLedReader struct {
+	k     int
+	first bool
+	in    *detReader
+}
+
+func (z *zeroLedReader) Read(p []byte) (int, error) {
+	n, err := z.in.Read(p)
+	if !z.first {
+		z.first = true
+		for i := 0; i < z.k && i < n; i++ {
+			p[i] = 0
+		}
+	}
+	return n, err
+}
+
+func ksZeroLedCreate(name string, bits, k int, f func()) {
+	old := crand.Reader
+	crand.Reader = &zeroLedReader{k: k, in: &detReader{seed: sha256.Sum256([]byte(fmt.Sprintf("verif-ks-entropy:%s:%d:%d", name, bits, time.Now().UnixNano())))}}
+	defer func() { crand.Reader = old }()
+	f()
 }
